@@ -173,16 +173,12 @@ theorem entryEvents_t (sp : Spec) (env : Env) (t asOf : Nat) (e : Entry) :
   · simp at hkv; subst hkv; rfl
 
 theorem entryKVTs_eq (sp : Spec) (env : Env) (start t : Nat) (e : Entry)
-    (hstart : sp.injective = false ∨ sp.q.lookupAtBulkStart = false ∨ start = t)
+    (hstart : sp.injective = false ∨ start = t)
     (hpfx : ∀ kv ∈ entryEvents sp env t (t - 1) e, hasPrefix kv.k sp.tgtPrefix = true)
     (hrd : sp.injective = true → ∀ p,
       env.srcPrev (t - 1) (mapKey sp.smap e.key e.value) = some p → (env.readEntry p e.key).isSome = true) :
     entryKVTs sp env start t e = .ok (entryEvents sp env t (t - 1) e) := by
-  have hcur : sp.injective = false ∨ (if sp.q.lookupAtBulkStart = true then start else t) = t := by
-    rcases hstart with h | h | h
-    · exact Or.inl h
-    · right; simp [h]
-    · right; subst h; simp
+  have hcur : sp.injective = false ∨ start = t := hstart
   unfold entryKVTs
   unfold entryEvents at hpfx ⊢
   by_cases c1 : e.md.nonIndexable = true
@@ -232,7 +228,7 @@ theorem entryKVTs_eq (sp : Spec) (env : Env) (start t : Nat) (e : Entry)
     · simp [c1, c2]
 
 theorem entriesKVTs_eq (sp : Spec) (env : Env) (start t : Nat) (es : List Entry)
-    (hstart : sp.injective = false ∨ sp.q.lookupAtBulkStart = false ∨ start = t)
+    (hstart : sp.injective = false ∨ start = t)
     (hpfx : ∀ e ∈ es, ∀ kv ∈ entryEvents sp env t (t - 1) e, hasPrefix kv.k sp.tgtPrefix = true)
     (hrd : sp.injective = true → ∀ e ∈ es, ∀ p,
       env.srcPrev (t - 1) (mapKey sp.smap e.key e.value) = some p → (env.readEntry p e.key).isSome = true) :
@@ -247,7 +243,7 @@ theorem entriesKVTs_eq (sp : Spec) (env : Env) (start t : Nat) (es : List Entry)
     simp [entriesKVTs, h1, h2]
 
 theorem txKVTs_eq (sp : Spec) (env : Env) (start : Nat) (tx : Tx)
-    (hstart : sp.injective = false ∨ sp.q.lookupAtBulkStart = false ∨ start = tx.id) (hok : TxOk sp env tx) :
+    (hstart : sp.injective = false ∨ start = tx.id) (hok : TxOk sp env tx) :
     entriesKVTs sp env start tx.id tx.entries = .ok (txEvents sp env tx) := by
   obtain ⟨h1, _, h3⟩ := hok
   apply entriesKVTs_eq sp env start tx.id tx.entries hstart
@@ -256,7 +252,7 @@ theorem txKVTs_eq (sp : Spec) (env : Env) (start : Nat) (tx : Tx)
   · exact h3
 
 theorem txsKVTs_eq (sp : Spec) (env : Env) (start : Nat) (b : List Tx)
-    (hstart : ∀ tx ∈ b, sp.injective = false ∨ sp.q.lookupAtBulkStart = false ∨ start = tx.id) (hok : ∀ tx ∈ b, TxOk sp env tx) :
+    (hstart : ∀ tx ∈ b, sp.injective = false ∨ start = tx.id) (hok : ∀ tx ∈ b, TxOk sp env tx) :
     txsKVTs sp env start b = .ok (logEvents sp env b) := by
   induction b with
   | nil => rfl
@@ -372,28 +368,27 @@ theorem logEvents_pairwise (sp : Spec) (env : Env) (b : List Tx)
 
 theorem indexBulk_eq (sp : Spec) (env : Env) (tr : Tree IVal) (b : List Tx) (hb : b ≠ [])
     (hok : ∀ tx ∈ b, TxOk sp env tx)
-    (hpart : sp.injective = false ∨ sp.q.lookupAtBulkStart = false ∨ b.length = 1) :
+    (hpart : sp.injective = false ∨ b.length = 1) :
     indexBulk sp env tr b = applyKVTs tr (logEvents sp env b) (lastId b) := by
   cases b with
   | nil => contradiction
   | cons tx0 rest =>
     have hstart : ∀ tx ∈ tx0 :: rest,
-        sp.injective = false ∨ sp.q.lookupAtBulkStart = false ∨ tx0.id = tx.id := by
+        sp.injective = false ∨ tx0.id = tx.id := by
       intro tx htx
-      rcases hpart with h | h | h
+      rcases hpart with h | h
       · exact Or.inl h
-      · exact Or.inr (Or.inl h)
       · have : rest = [] := by simpa using h
         subst this
         simp at htx
         subst htx
-        exact Or.inr (Or.inr rfl)
+        exact Or.inr rfl
     simp only [indexBulk, txsKVTs_eq sp env tx0.id (tx0 :: rest) hstart hok]
 
 theorem indexBulk_step (sp : Spec) (env : Env) (tr : Tree IVal) (done b : List Tx)
     (href : Refines tr sp env done) (hts : tr.ts ≤ lastId done) (hb : b ≠ [])
     (hids : IdsAbove 0 (done ++ b)) (hok : ∀ tx ∈ b, TxOk sp env tx)
-    (hpart : sp.injective = false ∨ sp.q.lookupAtBulkStart = false ∨ b.length = 1) :
+    (hpart : sp.injective = false ∨ b.length = 1) :
     ∃ tr1, indexBulk sp env tr b = .ok tr1 ∧ Refines tr1 sp env (done ++ b) ∧
       tr1.ts ≤ lastId (done ++ b) := by
   rw [indexBulk_eq sp env tr b hb hok hpart, lastId_append done b hb]
@@ -452,7 +447,7 @@ theorem runBulks_refines (sp : Spec) (env : Env) (bulks : List (List Tx)) :
     (∀ b ∈ bulks, b ≠ []) →
     IdsAbove 0 (done ++ bulks.flatten) →
     (∀ tx ∈ bulks.flatten, TxOk sp env tx) →
-    (sp.injective = false ∨ sp.q.lookupAtBulkStart = false ∨ ∀ b ∈ bulks, b.length = 1) →
+    (sp.injective = false ∨ ∀ b ∈ bulks, b.length = 1) →
     ∃ tr', runBulks sp env tr bulks = .ok tr' ∧ Refines tr' sp env (done ++ bulks.flatten) ∧
       tr'.ts ≤ lastId (done ++ bulks.flatten) := by
   induction bulks with
@@ -467,11 +462,11 @@ theorem runBulks_refines (sp : Spec) (env : Env) (bulks : List (List Tx)) :
       exact ⟨fun tx htx => hids.1 tx (List.mem_append_left _ htx), (List.pairwise_append.mp hids.2).1⟩
     obtain ⟨tr1, h1, href1, hts1⟩ := indexBulk_step sp env tr done b href hts (hne b List.mem_cons_self) hids1
       (fun tx htx => hok tx (by simp [htx]))
-      (hpart.imp id (Or.imp id (fun h => h b List.mem_cons_self)))
+      (hpart.imp id (fun h => h b List.mem_cons_self))
     obtain ⟨tr', h2, href2, hts2⟩ := ih tr1 (done ++ b) href1 hts1
       (fun x hx => hne x (List.mem_cons_of_mem _ hx)) hids
       (fun tx htx => hok tx (by simp at htx ⊢; exact Or.inr htx))
-      (hpart.imp id (Or.imp id (fun h x hx => h x (List.mem_cons_of_mem _ hx))))
+      (hpart.imp id (fun h x hx => h x (List.mem_cons_of_mem _ hx)))
     refine ⟨tr', by simp [runBulks, h1, h2], ?_, ?_⟩
     · rw [List.flatten_cons, ← List.append_assoc]; exact href2
     · rw [List.flatten_cons, ← List.append_assoc]; exact hts2
@@ -480,39 +475,60 @@ theorem index_refines_log (sp : Spec) (env : Env) (bulks : List (List Tx))
     (hne : ∀ b ∈ bulks, b ≠ [])
     (hids : IdsAbove 0 bulks.flatten)
     (hok : ∀ tx ∈ bulks.flatten, TxOk sp env tx)
-    (hpart : sp.injective = false ∨ sp.q.lookupAtBulkStart = false ∨ ∀ b ∈ bulks, b.length = 1) :
+    (hpart : sp.injective = false ∨ ∀ b ∈ bulks, b.length = 1) :
     ∃ tr, runBulks sp env {} bulks = .ok tr ∧ Refines tr sp env bulks.flatten ∧ tr.ts ≤ lastId bulks.flatten := by
   have href0 : Refines ({} : Tree IVal) sp env [] :=
     ⟨by simp [Sorted], fun k => by simp [versions, LogView, logEvents], by simp⟩
   simpa using runBulks_refines sp env bulks {} [] href0 (Nat.le_refl _) hne (by simpa using hids) hok hpart
 
-theorem bulk_partition_independent (sp : Spec) (env : Env) (b1 b2 : List (List Tx))
+/-- a grouping the code can form (`BulksOf`) is a grouping the refinement proof accepts -/
+theorem hpart_of_bulks {sp : Spec} {B : Nat} {bulks : List (List Tx)} (h : BulksOf sp B bulks) :
+    sp.injective = false ∨ ∀ b ∈ bulks, b.length = 1 := by
+  by_cases hi : sp.injective = true
+  · right
+    intro b hb
+    obtain ⟨hne, hlen⟩ := h b hb
+    have : b.length ≤ 1 := by simpa [Spec.maxBulk, hi] using hlen
+    have : 0 < b.length := List.length_pos_iff.mpr hne
+    omega
+  · left; simpa using hi
+
+theorem index_refines_log_bulks (sp : Spec) (env : Env) (B : Nat) (bulks : List (List Tx))
+    (hb : BulksOf sp B bulks)
+    (hids : IdsAbove 0 bulks.flatten)
+    (hok : ∀ tx ∈ bulks.flatten, TxOk sp env tx) :
+    ∃ tr, runBulks sp env {} bulks = .ok tr ∧ Refines tr sp env bulks.flatten ∧ tr.ts ≤ lastId bulks.flatten :=
+  index_refines_log sp env bulks (fun b h => (hb b h).1) hids hok (hpart_of_bulks hb)
+
+theorem bulk_partition_independent (sp : Spec) (env : Env) (B1 B2 : Nat) (b1 b2 : List (List Tx))
     (hflat : b1.flatten = b2.flatten)
-    (hne1 : ∀ b ∈ b1, b ≠ []) (hne2 : ∀ b ∈ b2, b ≠ [])
+    (h1 : BulksOf sp B1 b1) (h2 : BulksOf sp B2 b2)
     (hids : IdsAbove 0 b1.flatten)
-    (hok : ∀ tx ∈ b1.flatten, TxOk sp env tx)
-    (hinj : sp.injective = false ∨ sp.q.lookupAtBulkStart = false) :
+    (hok : ∀ tx ∈ b1.flatten, TxOk sp env tx) :
     ∃ t1 t2, runBulks sp env {} b1 = .ok t1 ∧ runBulks sp env {} b2 = .ok t2 ∧
       ∀ k, versions t1.m k = versions t2.m k := by
-  have hp : ∀ bs : List (List Tx), sp.injective = false ∨ sp.q.lookupAtBulkStart = false ∨ ∀ b ∈ bs, b.length = 1 :=
-    fun _ => hinj.elim Or.inl (fun h => Or.inr (Or.inl h))
-  obtain ⟨t1, h1, r1, _⟩ := index_refines_log sp env b1 hne1 hids hok (hp b1)
-  obtain ⟨t2, h2, r2, _⟩ := index_refines_log sp env b2 hne2 (hflat ▸ hids) (hflat ▸ hok) (hp b2)
-  exact ⟨t1, t2, h1, h2, fun k => by rw [r1.view, r2.view, hflat]⟩
+  obtain ⟨t1, e1, r1, _⟩ := index_refines_log_bulks sp env B1 b1 h1 hids hok
+  obtain ⟨t2, e2, r2, _⟩ := index_refines_log_bulks sp env B2 b2 h2 (hflat ▸ hids) (hflat ▸ hok)
+  exact ⟨t1, t2, e1, e2, fun k => by rw [r1.view, r2.view, hflat]⟩
 
 theorem indexBulk_append (sp : Spec) (env : Env) (a b : List Tx)
     (ha : a ≠ []) (hb : b ≠ [])
     (hids : IdsAbove 0 (a ++ b))
     (hok : ∀ tx ∈ a ++ b, TxOk sp env tx)
-    (hinj : sp.injective = false ∨ sp.q.lookupAtBulkStart = false) :
+    (hinj : sp.injective = false) :
     ∃ t1 t2, runBulks sp env {} [a ++ b] = .ok t1 ∧ runBulks sp env {} [a, b] = .ok t2 ∧
       ∀ k, versions t1.m k = versions t2.m k := by
-  apply bulk_partition_independent sp env [a ++ b] [a, b]
+  apply bulk_partition_independent sp env (a ++ b).length (a ++ b).length [a ++ b] [a, b]
   · simp
-  · intro x hx; simp at hx; subst hx; simp [ha]
-  · intro x hx; simp at hx; rcases hx with rfl | rfl <;> assumption
+  · intro x hx
+    simp at hx; subst hx
+    exact ⟨by simp [ha], by simp [Spec.maxBulk, hinj]⟩
+  · intro x hx
+    simp at hx
+    rcases hx with rfl | rfl
+    · exact ⟨ha, by simp [Spec.maxBulk, hinj]⟩
+    · exact ⟨hb, by simp [Spec.maxBulk, hinj]⟩
   · simpa using hids
   · simpa using hok
-  · exact hinj
 
 end ImmuModel.Index.L.RefineAux
